@@ -19,6 +19,20 @@ func (s *Sim) onRequest(r *Req) {
 	if r.Type == "get" && !r.EventSubbed {
 		s.violate("C09", "a", "get-without-subscription", "get request %s sent while event.%s is not subscribed", r.ID, r.Name)
 	}
+	// C11.a: nothing is requested on behalf of a connection after its disposal
+	if r.CIdx >= 0 {
+		s.mu.Lock()
+		at, gone := s.connGone[r.CIdx]
+		s.mu.Unlock()
+		s.stat("oracle.C11.a_seam", 1)
+		if gone && r.Type == "access" && s.Cfg.Gw.ResetThrottle > 0 && len(s.W.Resets) > 0 {
+			// known finding F-22: a re-check waiting in the reset throttle is sent
+			// when its turn comes although the connection has been disposed
+			s.violate("C11", "a", "throttled-recheck-after-dispose", "request %s was sent on behalf of connection c%d, whose conn subscription was released at step %d", r.ID, r.CIdx, at)
+		} else if gone {
+			s.violate("C11", "a", "request-after-dispose", "request %s was sent on behalf of connection c%d, whose conn subscription was released at step %d", r.ID, r.CIdx, at)
+		}
+	}
 	s.accessOnRequest(r)
 	s.throttleOnRequest(r)
 	s.isolationOnRequest(r)
@@ -794,6 +808,7 @@ func (s *Sim) oracleEndOfRun() {
 	for _, c := range s.Clients {
 		c.finalizeDangling()
 	}
+	s.finalizeAccess()
 	s.stat("oracle.C09.e", 1)
 	s.mu.Lock()
 	var left []string
